@@ -188,6 +188,8 @@ package cli
 
 //@ func (*Cmd).printHelp
 //@   requires recv: c != nil
+//@   requires names: noHelpNames(fieldHeap(c.aliases))
+//@   ensures names: noHelpNames(fieldHeap(c.aliases))
 //@   requires wf: allCmdWF(fieldHeap(c.options), fieldHeap(c.args), fieldHeap(c.commands), fieldHeap(c.optionsIdx), fieldHeap(c.argsIdx))
 //@   logged
 //@   maypanic
@@ -196,6 +198,7 @@ package cli
 //@   loop 1 invariant no-flow: noFlow(old(trace), trace)
 //@   loop 2 invariant no-flow: noFlow(old(trace), trace)
 //@   loop 3 invariant no-flow: noFlow(old(trace), trace)
+//@   loop 3 invariant names: noHelpNames(fieldHeap(c.aliases))
 //@   loop 3 invariant listed: forall i int :: {commands[i]} 0 <= i && i < len(commands) ==> commands[i] != nil
 //@   loop 3 invariant wf: allCmdWF(fieldHeap(c.options), fieldHeap(c.args), fieldHeap(c.commands), fieldHeap(c.optionsIdx), fieldHeap(c.argsIdx))
 //@   loop 4 invariant no-flow: noFlow(old(trace), trace)
